@@ -210,6 +210,10 @@ static inline int post_verif_conv_expand_spacing(a2_t dilation, ai2_t ret)
 { return (long)ARR_AT(ret, 0) == (long)ARR_AT(dilation, 1) - 1 && (long)ARR_AT(ret, 1) == (long)ARR_AT(dilation, 0) - 1; }
 /* known finding: spacing is returned in dilation order (dh-1, dw-1) but applied to axes (-1, -2) */
 #define CONV_DILATION_SWAPPED(dilation) (ARR_AT(dilation, 0) != ARR_AT(dilation, 1))
+/* stride slices (..., ::sh, ::sw): step of the slice on H is stride[0], on W stride[1] (PyTorch: stride = (sh, sw)) */
+static inline int pre_verif_conv_slices(a2_t stride) { return 1; }
+static inline int post_verif_conv_slices(a2_t stride, a2_t ret)
+{ return ARR_AT(ret, 0) == ARR_AT(stride, 0) && ARR_AT(ret, 1) == ARR_AT(stride, 1); }
 /* pad widths (before_0..before_{d-1}, after_0..after_{d-1}): zero except the last two axes, padding = (ph, pw) */
 static inline int pre_verif_conv_pad(unsigned long src_dim, a2_t padding) { return src_dim >= 2UL && src_dim <= CAP; }
 static inline int post_verif_conv_pad(unsigned long src_dim, a2_t padding, sv16_t ret)
@@ -224,3 +228,9 @@ static inline int pre_verif_sliding_window_conv(sv10_t idx, sv10_t dst_shape, sv
 { ai2_t ax = {{-1, -2}}; return SV_LEN(src_shape) >= 2UL && pre_verif_sliding_window_axes(idx, dst_shape, src_shape, window, ax); }
 static inline int post_verif_sliding_window_conv(sv10_t idx, sv10_t dst_shape, sv_t src_shape, a2_t window, sv_t ret)
 { ai2_t ax = {{-1, -2}}; return post_verif_sliding_window_axes(idx, dst_shape, src_shape, window, ax, ret); }
+
+/* max pooling reducer on one window: the maximum of the window's elements (also when all of them are negative) */
+static inline int c17_max2(int a, int b) { return a > b ? a : b; }
+static inline int pre_verif_max_reducer(i4_t v) { return 1; }
+static inline int post_verif_max_reducer(i4_t v, int ret)
+{ return ret == c17_max2(c17_max2(ARR_AT(v, 0), ARR_AT(v, 1)), c17_max2(ARR_AT(v, 2), ARR_AT(v, 3))); }
